@@ -12,6 +12,7 @@ import (
 	"errors"
 	"fmt"
 	"hash/fnv"
+	"os"
 	"sort"
 	"strings"
 	"testing"
@@ -648,8 +649,14 @@ func c37Explore(r *ev.R, specs []c37Spec) c37Totals {
 		}
 		order = append(order[rot:], order[:rot]...)
 	}
+	only := os.Getenv("C37_ONLY") // debugging aid: explore only scenarios whose name contains this
 	for _, i := range order {
+		if only != "" && !strings.Contains(specs[i].Name, only) {
+			continue
+		}
+		t0 := time.Now()
 		st := vsched.Explore(r, c37Scenario(specs[i]))
+		fmt.Printf("c37: %-52s bound=%d executions=%d outcomes=%d exhaustive=%v %.1fs\n", specs[i].Name, specs[i].Bound, st.Executions, st.Outcomes, st.Exhaustive, time.Since(t0).Seconds())
 		if c37HarnessErr != "" {
 			r.HarnessError("shard placement differs from fnv64a(key) %% shards: %s", c37HarnessErr)
 			c37HarnessErr = ""
